@@ -35,7 +35,7 @@ SPEC = dict(
              "permutation (perm_invariant) and under duplicating spans (dup_invariant / dup_changes_only_length) below the cap; "
              "key separation (key_separates: all fields present, some value set differs, values free of the delimiters - the empty "
              "string allowed - below the cap => different keys) is proved at full strength for the repaired loop of commit a1a4703; "
-             "rate_floor, keep_iff_draw_zero, keep_one_in_rate for every dynsampler answer and every draw. The model is tied to "
+             "rate_floor, never_panics, keep_iff_draw_zero, keep_one_in_rate for every dynsampler answer (negative included) and every draw. The model is tied to "
              "sample/trace_key.go and the five samplers by running generated traces through the real code and comparing every "
              "key, count, rate and keep decision, plus a monitor of the property on the implementation's own observations.",
         note="Trusted: Lean kernel; the differential check (sampled); Go's formatting, wyhash (no collision among a trace's values), "
@@ -46,7 +46,7 @@ SPEC = dict(
                  "a 'value' is its rendering by AddAsString: 1, \"1\" and 1.0 are the same value (as TestDistinctValue_AddAsString expects)",
                  "sort.Strings (byte order) equals Lean's String order (code point order) on valid UTF-8; generated strings are valid UTF-8",
                  "key separation is claimed below the cap only (fewer than maxKeyLength distinct (field,value) pairs in both traces)",
-                 "dynsampler answers a non-negative int; for a negative answer the code panics in rand.Intn (modelled and reproduced, not counted as a violation)",
+                 "dynsampler's answer is any Go int (forced to 0, negative and max-int values in the harness); since commit 6dd5492 it is clamped to >= 1 before the uint conversion, so GetSampleRate never panics (never_panics); any panic is a monitor failure",
                  "rand.Intn(n) is uniform on [0,n): 'keeps with probability 1/rate' is proved as 'exactly one of the n draws keeps'",
                  "span payload fields named meta.* (served from dedicated Payload fields) are not generated"],
 )
